@@ -459,10 +459,10 @@ Proof.
     apply (inv_lst_frame st1); simpl; auto using incl_refl.
     + intros e en' A B. left. exists en'. auto.
     + intros t th' A. left. exists th'. auto.
-  - (* CleanCache *) inversion H; subst st'; clear H.
+  - (* CleanCache *) rewrite clean_cache_v_repaired in H. inversion H; subst st'; clear H.
     apply (inv_lst_frame st); simpl; auto using incl_refl.
-    + intros e en' A B. left. apply (map_ent_shrink (entries st) (fun e0 => if stale_in c (gens st) e0 then delete_stale e0 else e0)); auto.
-      intros en. destruct (stale_in c (gens st) en); simpl; auto. repeat split; auto. discriminate.
+    + intros e en' A B. left. apply (map_ent_shrink (entries st) (delete_stale_in c (gens st))); auto.
+      intros en. unfold delete_stale_in. destruct (stale_in c (gens st) en); simpl; auto. repeat split; auto. discriminate.
     + intros t th' A. left. apply same_thr; auto.
   - (* GcGens *) inversion H; subst st'; clear H. apply gc_gens_lst; auto.
   - (* RelCollect *) inversion H; subst st'; clear H. unfold rel_collect.
